@@ -249,6 +249,9 @@ type pipeline struct {
 	// pipeline's listed finding partClass)
 	partValid func(name string) func([]byte) bool
 	partClass string
+	// path is the URL path of the primary download (pipelines with a single
+	// download; used to serve it from the loopback server)
+	path string
 }
 
 // intactAux is the map of undamaged secondary downloads.
@@ -265,7 +268,11 @@ func (p *pipeline) intactAux(primary []byte) map[string]body {
 
 // runSite runs Fetch and Parse of a fresh updater over the given downloads.
 func (p *pipeline) runSite(b body, aux map[string]body) result {
-	c := client(p.routes(b, aux)...)
+	return p.runClient(client(p.routes(b, aux)...))
+}
+
+// runClient runs Fetch and Parse of a fresh updater over an HTTP client.
+func (p *pipeline) runClient(c *http.Client) result {
 	u, cfg, err := p.mk(c)
 	if err != nil {
 		return result{kind: "panic"}
@@ -358,17 +365,17 @@ func pipelines(corpus string) []pipeline {
 	ident := func(b []byte) []byte { return b }
 
 	ps = append(ps, pipeline{name: "alpine", class: "alpine", gen: func(rnd *hx.Rand, n int) []byte { return genAlpine(rnd, n) }, valid: validAlpine,
-		routes: one("main.json"), plain: ident, loop: "one-json-end",
+		routes: one("main.json"), plain: ident, loop: "one-json-end", path: "/v3.10/main.json",
 		mk: func(c *http.Client) (driver.Updater, driver.ConfigUnmarshaler, error) {
 			return alpine.UpdaterForC15(c, "http://feeds.test/v3.10/main.json", 3, 10, "main"), nil, nil
 		}})
 	ps = append(ps, pipeline{name: "debian", class: "debian", gen: func(rnd *hx.Rand, n int) []byte { return genDebian(rnd, n) }, valid: validDebian,
-		routes: one("json"), plain: ident, loop: "one-json-end",
+		routes: one("json"), plain: ident, loop: "one-json-end", path: "/tracker/data/json",
 		mk: func(c *http.Client) (driver.Updater, driver.ConfigUnmarshaler, error) {
 			return debian.UpdaterForC15(c, "http://feeds.test/tracker/data/json", debianReleases), nil, nil
 		}})
 	ps = append(ps, pipeline{name: "ubuntu-plain", class: "ubuntu", gen: func(rnd *hx.Rand, n int) []byte { return genOVAL(rnd, flavorUbuntu, n) }, valid: validOVAL,
-		routes: one("oval.xml"), plain: ident, loop: "one-xml",
+		routes: one("oval.xml"), plain: ident, loop: "one-xml", path: "/oval.xml",
 		mk: func(c *http.Client) (driver.Updater, driver.ConfigUnmarshaler, error) {
 			return ubuntu.UpdaterForC15(c, "http://feeds.test/oval.xml", false, "focal", "20.04"), nil, nil
 		}})
@@ -376,7 +383,7 @@ func pipelines(corpus string) []pipeline {
 		return func(b []byte) []byte { p, _ := decompressAll(kind, b); return p }
 	}
 	ps = append(ps, pipeline{name: "ubuntu-bzip2", wrapper: "bzip2", fixed: loadCorpus(corpus, ".ubuntu.xml.bz2"), valid: validWrapped("bzip2", validOVAL),
-		routes: one("oval.xml.bz2"), plain: unz("bzip2"), loop: "one-xml", stage: "fetch",
+		routes: one("oval.xml.bz2"), plain: unz("bzip2"), loop: "one-xml", stage: "fetch", path: "/oval.xml.bz2",
 		mk: func(c *http.Client) (driver.Updater, driver.ConfigUnmarshaler, error) {
 			return ubuntu.UpdaterForC15(c, "http://feeds.test/oval.xml.bz2", true, "focal", "20.04"), nil, nil
 		}})
@@ -385,7 +392,7 @@ func pipelines(corpus string) []pipeline {
 	ovalPipe := func(name, kind string, fl ovalFlavor, mk func(uri, comp string) (driver.Updater, error), fixed [][]byte) pipeline {
 		cname := map[string]string{"": "none", "gzip": "gzip", "bzip2": "bzip2", "zstd": "zstd"}[kind]
 		p := pipeline{name: name + "-" + cname, wrapper: kind, valid: validWrapped(kind, validOVAL), fixed: fixed,
-			routes: one("oval.xml"), plain: unz(kind), loop: "one-xml", stage: "fetch",
+			routes: one("oval.xml"), plain: unz(kind), loop: "one-xml", stage: "fetch", path: "/oval.xml",
 			mk: func(c *http.Client) (driver.Updater, driver.ConfigUnmarshaler, error) {
 				u, err := mk("http://feeds.test/oval.xml", cname)
 				return u, noConfig, err
@@ -448,16 +455,24 @@ func pipelines(corpus string) []pipeline {
 		}
 		return genOSVInner(rnd, "Go", n, method)
 	}, valid: func(b []byte) bool { return validOSV(wrapOSVOuter("Go", b)) },
-		routes: one("all.zip"),
+		routes: one("all.zip"), path: "/Go/all.zip",
 		mk: func(c *http.Client) (driver.Updater, driver.ConfigUnmarshaler, error) {
 			uri, _ := url.Parse("http://osv.test/Go/all.zip")
 			return osv.UpdaterForC15(c, uri, "Go"), nil, nil
 		}})
 
+	ps = append(ps, pipeline{name: "osv-pypi", wrapper: "zip", gen: func(rnd *hx.Rand, n int) []byte { return genOSVInner(rnd, "PyPI", n, 8) },
+		valid:  func(b []byte) bool { return validOSV(wrapOSVOuter("PyPI", b)) },
+		routes: one("all.zip"), path: "/PyPI/all.zip",
+		mk: func(c *http.Client) (driver.Updater, driver.ConfigUnmarshaler, error) {
+			uri, _ := url.Parse("http://osv.test/PyPI/all.zip")
+			return osv.UpdaterForC15(c, uri, "PyPI"), nil, nil
+		}})
+
 	// epss: gzip'd CSV
 	ps = append(ps, pipeline{name: "epss", wrapper: "gzip", gen: func(rnd *hx.Rand, n int) []byte { return gz(genEPSSCSV(rnd, 2*n)) },
 		genStored: func(rnd *hx.Rand, n int) []byte { return gzStored(genEPSSCSV(rnd, 2*n)) },
-		valid: validWrapped("gzip", validEPSSCSV), routes: one(".csv.gz"), plain: unz("gzip"), loop: "csv-epss", stage: "inline",
+		valid: validWrapped("gzip", validEPSSCSV), routes: one(".csv.gz"), plain: unz("gzip"), loop: "csv-epss", stage: "inline", path: "/epss_scores-2024-10-25.csv.gz",
 		mk: func(c *http.Client) (driver.Updater, driver.ConfigUnmarshaler, error) {
 			return &epss.Enricher{}, jsonConfig(map[string]string{"url": "http://epss.test/epss_scores-2024-10-25.csv.gz"}), nil
 		}})
@@ -558,7 +573,7 @@ var errTransport = errors.New("c15: transport: connection reset")
 
 // sweepPipeline applies cuts (clean close and transport error) and flips to
 // the download of one pipeline.
-func sweepPipeline(r *hx.Run, p *pipeline, transit []byte, idx int, rnd *hx.Rand, cfg hx.Config) {
+func sweepPipeline(r *hx.Run, p *pipeline, transit []byte, idx int, rnd *hx.Rand, cfg hx.Config, div int) {
 	aux := p.intactAux(transit)
 	intact := guard(func() result { return p.runSite(body{data: transit}, aux) })
 	r.Count("pipe-feed:" + p.name)
@@ -575,7 +590,7 @@ func sweepPipeline(r *hx.Run, p *pipeline, transit []byte, idx int, rnd *hx.Rand
 	}
 	f := &feed{t: &target{name: "pipe-" + p.name, valid: p.valid, class: p.class}, idx: idx, spool: transit, intact: intact}
 	m := len(transit)
-	budget := cfg.N(500, 4000)
+	budget := cfg.N(500, 4000) / div
 	stride := 1
 	if m > budget {
 		stride = (m + budget - 1) / budget
@@ -633,6 +648,9 @@ func runPipelines(r *hx.Run, rnd *hx.Rand, cfg hx.Config) {
 	ps := pipelines(cfg.Corpus)
 	for pi := range ps {
 		p := &ps[pi]
+		if p.name == "osv-pypi" && !cfg.Thorough() {
+			continue // the quick tier sweeps one ecosystem here; both under scripted framing
+		}
 		if p.gen == nil {
 			if len(p.fixed) == 0 {
 				r.Count("pipe-skipped-no-corpus:" + p.name)
@@ -640,18 +658,18 @@ func runPipelines(r *hx.Run, rnd *hx.Rand, cfg hx.Config) {
 			}
 			n := cfg.N(1, len(p.fixed))
 			for i := 0; i < n && i < len(p.fixed) && !r.Stop(); i++ {
-				sweepPipeline(r, p, p.fixed[(i+int(cfg.Seed))%len(p.fixed)], i, rnd.Fork(), cfg)
+				sweepPipeline(r, p, p.fixed[(i+int(cfg.Seed))%len(p.fixed)], i, rnd.Fork(), cfg, 1)
 			}
 			continue
 		}
 		for i := 0; i < cfg.N(1, 5) && !r.Stop(); i++ {
 			transit := p.gen(rnd, 1+rnd.Intn(cfg.N(2, 4)))
-			sweepPipeline(r, p, transit, i, rnd.Fork(), cfg)
+			sweepPipeline(r, p, transit, i, rnd.Fork(), cfg, 1)
 		}
 		if p.genStored != nil && !r.Stop() {
 			// the wrapper that stores: only its trailing checksum protects the content
 			r.Count("pipe-stored:" + p.name)
-			sweepPipeline(r, p, p.genStored(rnd, 1+rnd.Intn(2)), 100, rnd.Fork(), cfg)
+			sweepPipeline(r, p, p.genStored(rnd, 1+rnd.Intn(2)), 100, rnd.Fork(), cfg, 2)
 		}
 	}
 }
